@@ -34,7 +34,7 @@ META = {
     "timeout": {"quick": 400, "thorough": 1800}, "parts": {"quick": 16, "thorough": 16}},
   "h_roundtrip_gfa2": {"kind": "G",
     "functions": ["Gfa.to_gfa1/to_gfa1_s/to_gfa2_s", "gfa2.to_gfa1.ToGFA1._to_gfa1_a", "ordered ToGFA1", "records without counterpart"],
-    "bounds": "GFA2 documents: 2-3 segments, E line from 7 interval patterns (dovetail x4, containment x2, internal) x orientations x 3 alignments, plus F, G, U, custom record, O path: dropped or refused, never mistranslated; converted text valid GFA1 at vlevel 3; back-conversion equivalent",
+    "bounds": "GFA2 documents: 2-3 segments, E line from 7 interval patterns (dovetail x4, containment x2, internal) x orientations x 3 alignments, plus F, G, U, custom record, O paths (segments only / through the edge / the edge alone forwards and backwards / backwards edge then segment): dropped or refused, never mistranslated; converted text valid GFA1 at vlevel 3; back-conversion equivalent",
     "timeout": {"quick": 400, "thorough": 1200}, "parts": {"quick": 14, "thorough": 14}},
  },
 }
@@ -296,11 +296,12 @@ E7 = [(("6", "10$"), ("0", "4")), (("0", "4"), ("6", "10$")), (("0", "4"), ("0",
       (("2", "6"), ("0", "4$")), (("0", "4$"), ("3", "7")), (("2", "6"), ("3", "7"))]
 ALN = ["4M", "1M1D2M1I", "*"]
 EXTRA = [None, "F\ta\tread1+\t0\t4\t0\t4\t*", "G\tg1\ta+\tb-\t5\t*", "U\tu1\ta b e1", "X\tcustom\tdata", "O\to1\ta+ b+",
-         "O\to2\ta+ e1+ b+", "E\te2\ta+\tb+\t1\t5\t1\t5\t2,2\tTS:i:2"]
+         "O\to2\ta+ e1+ b+", "E\te2\ta+\tb+\t1\t5\t1\t5\t2,2\tTS:i:2", "O\to3\te1+", "O\to4\te1-", "O\to5\te1- {a}"]
+NX = len(EXTRA)
 
 def h_roundtrip_gfa2(pi: int, ai: int, p1: bool, p2: bool, xi: int) -> bool:
   """
-  pre: 0 <= pi < 7 and 0 <= ai < 3 and 0 <= xi < 8
+  pre: 0 <= pi < 7 and 0 <= ai < 3 and 0 <= xi < NX
   pre: (pi + xi) % NPART == PART
   post: _ == True
   """
@@ -311,9 +312,11 @@ def h_roundtrip_gfa2(pi: int, ai: int, p1: bool, p2: bool, xi: int) -> bool:
   extra = vp.pick(EXTRA, xi)
   L1 = 4 if iv1[1] == "4$" else 10
   L2 = 4 if iv2[1] == "4$" else 10
-  if extra is not None and extra.startswith("O\t"):
+  if extra is not None and extra.startswith("O\t") and "e1" not in extra.split("\t")[2].split(" ")[0]:
     if pi != 0: return True    # a+ b+ is a walk only over the suffix/prefix dovetail (group resolution itself: C17)
     o1, o2 = "+", "+"          # the group items name a+ and b+
+  if extra is not None and "{a}" in extra:
+    extra = extra.replace("{a}", "a" + INVO[o1])      # the edge walked backwards, then its first segment inverted
   doc = ["H\tVN:Z:2.0", "S\ta\t" + str(L1) + "\t*", ("S\tb\t10\tACGTACGTAC" if L2 == 10 else "S\tb\t4\tACGT"),
          "E\te1\ta" + o1 + "\tb" + o2 + "\t" + iv1[0] + "\t" + iv1[1] + "\t" + iv2[0] + "\t" + iv2[1] + "\t" + aln + "\tab:Z:q"]
   if extra is not None: doc.append(extra)
@@ -352,6 +355,18 @@ def h_roundtrip_gfa2(pi: int, ai: int, p1: bool, p2: bool, xi: int) -> bool:
       return False
     lines = [l for l in t1.split("\n") if l]
     if any(l[0] not in "HSLCP#" for l in lines): return False
+    if extra is not None and extra.startswith("O\t"):
+      # the O group becomes a P line visiting the same oriented segments (second implementation: spec/groups),
+      # or, when its walk uses an edge that is not a dovetail, is dropped
+      from spec import groups as GR
+      model = GR.parse(doc)
+      walk = GR.captured_path(model, extra.split("\t")[1])
+      ps = [l for l in lines if l[0] == "P"]
+      if exp["kind"] != "dovetail":
+        if ps: return False
+      else:
+        if len(ps) != 1: return False
+        if ps[0].split("\t")[2] != ",".join(n + o for (n, o) in walk[0::2]): return False
     lc = [l for l in lines if l[0] in "LC" and "ID:Z:e1" in l.split("\t")]
     if exp["kind"] == "internal":
       if lc: return False
